@@ -34,6 +34,8 @@ func boundaryYears() []int {
 	add(2099, 2101)
 	add(2999, 3001)
 	add(9990, 9998)
+	// century years on both sides of the leap rule, and the first year of a third 400-year cycle
+	ys = append(ys, 1600, 1700, 1800, 1900, 2000, 2100, 2200, 2400, 3200)
 	// Julian-only leap days (century years that are leap in the Julian calendar but not in the proleptic Gregorian one)
 	ys = append(ys, 100, 200, 300, 500, 600, 700, 900, 1000, 1100, 1300, 1400, 1500)
 	// the years after those (their first days are counted from the previous, Julian-only leap, year)
@@ -248,4 +250,34 @@ func absInt(a int) int {
 		return -a
 	}
 	return a
+}
+
+// seamWarmup is the first thing every worker process does with the library: it converts and renders the days of
+// October, January and December of ONE seam year (which one rotates with the chunk number), so that whatever the
+// library builds lazily on first use is built from the data of a seam (the 21-day October of 1582, year 1, the last
+// year, a Julian-only leap year, a reform year) in some processes and from ordinary data in others. State that is
+// sized or keyed by its first caller then shows up as a difference in the judged cases that follow.
+var seamYears = []int{1582, 2024, 1, 9998, 1500, 23, 1600, 239, 2033, 3439, 1583, 100}
+
+func seamWarmup(idx int) {
+	y := seamYears[((idx%len(seamYears))+len(seamYears))%len(seamYears)]
+	for _, m := range []int{10, 1, 12, 2} {
+		for d := 1; d <= 31; d++ {
+			if !ref.Exists(y, m, d) {
+				continue
+			}
+			func() {
+				defer func() { recover() }()
+				s := calendar.NewSolar(y, m, d, (d*5)%24, 30, 0)
+				l := s.GetLunar()
+				_ = s.ToFullString() + l.ToFullString() + l.GetTao().ToFullString() + l.GetFoto().ToFullString()
+				s.GetFestivals()
+				s.GetOtherFestivals()
+				s.GetSalaryRate()
+				l.GetEightChar().GetYun(d % 2).GetDaYun()
+				calendar.NewSolarWeekFromYmd(y, m, d, d%7).GetIndexInYear()
+				calendar.NewSolarMonthFromYm(y, m).GetWeeks(d % 7)
+			}()
+		}
+	}
 }
